@@ -8,7 +8,7 @@ use bytes::{Buf, Bytes};
 
 """
 
-from gen import make_call_rule, make_seq_rule, make_for_index_rule, make_ghost_arg_rule, make_for_rule
+from gen import make_call_rule, make_seq_rule, make_for_index_rule, make_ghost_arg_rule, make_for_rule, rule_mut_self
 
 R_PREALLOC = make_call_rule("R-prealloc", "Vec::with_capacity", "verif_with_capacity", "Ghost(verif_prealloc_budget)")
 
@@ -187,7 +187,7 @@ UNITS["log"] = {
 R_TRY_INTO_DEL = make_seq_rule("R-try-into", "Command::Del(parser.try_into()?)", "Command::Del(Del::try_from(parser)?)")
 R_TRY_INTO_GET = make_seq_rule("R-try-into", "Command::Get(parser.try_into()?)", "Command::Get(Get::try_from(parser)?)")
 R_TRY_INTO_SET = make_seq_rule("R-try-into", "Command::Set(parser.try_into()?)", "Command::Set(Set::try_from(parser)?)")
-R_KV_GHOST = make_ghost_arg_rule(["apply", "verif_blocking", "get", "set", "del"], skip_after={}, arg="Tracked(m)", param="Tracked(m): Tracked<&mut KvModel>")
+R_KV_GHOST = make_ghost_arg_rule(["apply", "verif_blocking", "get", "set", "del", "run"], skip_after={}, arg="Tracked(m)", param="Tracked(m): Tracked<&mut KvModel>")
 R_SPAWN = make_seq_rule("R-outline", "tokio::task::spawn_blocking(", "verif_task::spawn_blocking(")
 
 
@@ -200,6 +200,7 @@ def _keys_for(iter_text, pat):
 R_FOR_KEYS = make_for_rule("R-for-collect", _keys_for)
 # Verus cannot resolve the auto-trait obligation `TcpStream: Unpin` at the concrete call sites in command/*.rs; the bound plays no role for the shim stream
 R_NO_UNPIN = make_seq_rule("R-unpin", "AsyncWriteExt + Unpin", "AsyncWriteExt")
+R_TRYFROM_CALL = make_seq_rule("R-tryfrom-call", "Command::try_from(frame)", "super::command::verif_command_try_from(frame)")
 CMD_RULES = (R_TRY_INTO_DEL, R_TRY_INTO_GET, R_TRY_INTO_SET, R_SPAWN, R_FOR_KEYS, R_KV_GHOST)
 CMD_USES = "use super::verif_net as net;\nuse super::frame::{self, Frame};\nuse super::connection::Connection;\nuse super::command::{self, Utf8Bytes, ubytes, SCmd, reply, effect, del_fold, ok_text};\nuse std::convert::TryFrom;"
 UNITS["cmd"] = {
@@ -233,10 +234,13 @@ UNITS["cmd"] = {
         ("raw", "lemmas/cmd_views_del.rs", "lemma", {"mod": "del"}),
         ("repo", "src/net/command/del.rs", {"mod": "del", "rules": CMD_RULES, "only": ["struct Del", "impl Del::fn new", "impl Del::fn apply", "impl Del::fn verif_blocking"],
                                             "outline": {"impl Del::fn apply": "Result<i64, KV::Error>"}}),
+        ("raw", "lemmas/srv_lemmas.rs", "lemma", {"mod": "server"}),
+        ("repo", "src/net/server.rs", {"mod": "server", "rules": CMD_RULES + (rule_mut_self, R_TRYFROM_CALL), "select": True, "only": ["struct Handler", "impl Handler<KV>::fn run"]}),
     ],
     "mod_uses": {"connection": "use super::frame::{self, Frame};", "error": "",
                  "command": "use super::frame::{self, Frame};\nuse super::connection::Connection;\nuse super::{del::Del, get::Get, set::Set};\nuse std::convert::TryFrom;\nuse vstd::std_specs::iter::IteratorSpec;",
-                 "get": CMD_USES, "set": CMD_USES, "del": CMD_USES},
+                 "get": CMD_USES, "set": CMD_USES, "del": CMD_USES,
+                 "server": "use std::sync::Arc;\nuse std::convert::TryFrom;\nuse super::command::{Command, SCmd, spec_command, reply, effect, cview};\nuse super::connection::Connection;\nuse super::frame::{self, Frame};"},
     "root_uses": "pub use frame::*;\npub use error::Error;\npub use connection::Connection;\n",
     "extern": ["bytes"],
 }
